@@ -82,6 +82,12 @@ func Isolated(r *ev.Run, id string, timeout time.Duration) {
 	if !res2.Died && !res2.Hung {
 		panic("isolated worker died once but not on re-run (checker error): " + res.Output)
 	}
+	if res2.Hung && !strings.Contains(res2.Output, "@@HANG") {
+		// no single call was stuck (the per-operation watchdog reports that): the exploration
+		// as a whole needed longer than its budget. Truncation, never a verdict.
+		r.Capped(fmt.Sprintf("exploration did not finish within %s", timeout))
+		return
+	}
 	for _, marker := range []string{"engine error", "checker error", "merge-divergence", "checker defect", "harness request does not parse", "scenario precondition failed"} {
 		if strings.Contains(res2.Output, marker) {
 			// the worker was stopped by the checker's own consistency guards: not a verdict
